@@ -97,7 +97,7 @@ def run(ctx):
     ctx.check('R1', 'handle_unused_data: with retry enabled the input goes to the retry list', ok, 'Pool.run.<handle_unused_data>', 'unused-not-retried',
               'an input that could not be enqueued is not put on the retry list', where=loc(hu, hu.node))
     gu = ctx.an.cfg(hu, pool)
-    ins_post = {n.id for n in gu.nodes if n.stmt is not None and n.part == 'post' and any(c in ins for c in calls_in(n.stmt))}
+    ins_post = {n.id for n in gu.nodes if n.stmt is not None and n.part == 'post' and any(c in ins for c in n.calls())}
     rt = [n for n in gu.nodes if n.kind == 'test' and 'self._retry' in norm(n.stmt.test)]
     if rt:
         neg = norm(rt[0].stmt.test).startswith('not ')
@@ -108,8 +108,8 @@ def run(ctx):
     # death: pending inputs -> retries before clear
     gd = ctx.an.cfg(hd, pool)
     ext = [n for n in gd.nodes if n.stmt is not None and n.part == 'post' and any(last_attr(c) == 'extend' and receiver(c) == 'self._retries' and
-                                                                                   'self._pending_per_worker' in norm(c.args[0]) for c in calls_in(n.stmt))]
-    clr = [n for n in gd.nodes if n.stmt is not None and n.part == 'eval' and any(last_attr(c) == 'clear' and 'self._pending_per_worker' in (norm(c.func.value)) for c in calls_in(n.stmt))]
+                                                                                   'self._pending_per_worker' in norm(c.args[0]) for c in n.calls())]
+    clr = [n for n in gd.nodes if n.stmt is not None and n.part == 'eval' and any(last_attr(c) == 'clear' and 'self._pending_per_worker' in (norm(c.func.value)) for c in n.calls())]
     rtest = [n for n in gd.nodes if n.kind == 'test' and norm(n.stmt.test) == 'self._retry']
     ok = bool(ext) and bool(clr) and bool(rtest)
     if ok:
@@ -162,8 +162,8 @@ def run(ctx):
                       'Pool.run.<handle_enqueue>', f'append-arg:{norm(c)}', f'`{norm(c)}` does not record the enqueued input under the worker it went to', where=loc(func, c))
 
     # ---------------------------------------------------------------- R3 closed-worker discipline
-    adds = {n.id for n in gd.nodes if n.stmt is not None and n.part == 'post' and any(last_attr(c) == 'add' and receiver(c) == 'self._closed' and norm(c.args[0]).endswith('.id') for c in calls_in(n.stmt))}
-    clr_post = {n.id for n in gd.nodes if n.stmt is not None and n.part == 'post' and any(last_attr(c) == 'clear' and 'self._pending_per_worker' in norm(c.func.value) for c in calls_in(n.stmt))}
+    adds = {n.id for n in gd.nodes if n.stmt is not None and n.part == 'post' and any(last_attr(c) == 'add' and receiver(c) == 'self._closed' and norm(c.args[0]).endswith('.id') for c in n.calls())}
+    clr_post = {n.id for n in gd.nodes if n.stmt is not None and n.part == 'post' and any(last_attr(c) == 'clear' and 'self._pending_per_worker' in norm(c.func.value) for c in n.calls())}
     dec = {n.id for n in gd.nodes if n.stmt is not None and isinstance(n.stmt, ast.AugAssign) and is_self_attr(n.stmt.target, '_pending') and n.part in (None, 'store')}
     for ids, what, key in ((adds, 'marks the worker closed', 'death-not-marked-closed'), (clr_post, 'empties its pending list', 'death-keeps-pending'),
                            (dec, 'lowers the pending counter', 'death-keeps-counter')):
